@@ -253,6 +253,12 @@ func highNonceProfileAt(name string, tier Tier, oracles []explore.Oracle, suffix
 			for _, to := range [][]byte{uni.B0, uni.C1} {
 				acts = append(acts, uni.NFTTransfer(uni.A0, to, uni.S1, 1, 1), uni.Multi(uni.A0, to, []uni.Ent{{Tok: uni.S1, Nonce: 1, Q: 1}}))
 			}
+			// ... and the other direction: (S, 258) has the key bytes of (token S||01, nonce 2), which
+			// the creator holds in the aliased variant of this profile
+			acts = append(acts, uni.NFTTransfer(uni.A0, uni.B0, uni.S, 258, 1), uni.Multi(uni.A0, uni.C1, []uni.Ent{{Tok: uni.S, Nonce: 258, Q: 1}}),
+				uni.Call(uni.A0, uni.A0, vmcommon.BuiltInFunctionESDTNFTAddQuantity, uni.S, uni.Big(258), uni.Big(1)),
+				uni.Call(uni.A0, uni.A0, vmcommon.BuiltInFunctionESDTNFTBurn, uni.S, uni.Big(258), uni.Big(1)),
+				uni.Call(uni.A0, uni.A0, vmcommon.BuiltInFunctionESDTNFTUpdateAttributes, uni.S, uni.Big(258), []byte("zz")))
 			acts = append(acts, uni.Call(uni.A0, uni.A0, vmcommon.BuiltInFunctionESDTNFTAddQuantity, uni.S1, uni.Big(1), uni.Big(1)),
 				uni.Call(uni.A0, uni.A0, vmcommon.BuiltInFunctionESDTNFTBurn, uni.S1, uni.Big(1), uni.Big(1)),
 				uni.Call(uni.A0, uni.A0, vmcommon.BuiltInFunctionESDTNFTAddURI, uni.S1, uni.Big(1), []byte("x")),
